@@ -108,6 +108,9 @@ func c10QueueOrder(seq []int, cascades int) []string {
 	return probs
 }
 
+// c10WithReset makes c10RuleOrderX replace the rule set through Reset first.
+var c10WithReset bool
+
 // (ii) rule order and fail-on-first-error through ProcessEvent.
 func c10RuleOrder(prios [3]int, failMask int, fofe bool, addFirst bool) []string {
 	return c10RuleOrderX(prios, failMask, fofe, addFirst, -1, 0)
@@ -120,6 +123,17 @@ func c10RuleOrderX(prios [3]int, failMask int, fofe bool, addFirst bool, xpos in
 	var probs []string
 	proc := engine.NewProcessor(1)
 	proc.SetFailOnFirstErrorInTriggerSequence(fofe)
+	if c10WithReset {
+		// the rule set is replaced before the start (what a reload does): Reset
+		// removes the rules, nothing else
+		proc.AddRule(&engine.Rule{Name: "old", KindMatch: []string{"ev"}, ScopeMatch: []string{}, Priority: -5,
+			Action: func(p engine.Processor, m engine.Monitor, e *engine.Event, tid uint64) error {
+				return fmt.Errorf("a rule removed by Reset ran")
+			}})
+		if err := proc.Reset(); err != nil {
+			return []string{"Reset failed: " + err.Error()}
+		}
+	}
 	var ran []int
 	childRan := 0
 	xran := 0
@@ -486,6 +500,17 @@ func init() {
 											}
 										}
 									}
+									// the same after the rule set was replaced through Reset
+									c10WithReset = true
+									n++
+									for _, p := range c10RuleOrder([3]int{a, b, c}, mask, fofe, false) {
+										k := "reset:" + strings.Fields(p)[0] + strings.Fields(p)[1]
+										if !seen[k] {
+											seen[k] = true
+											probs = append(probs, fmt.Sprintf("%s [priorities %v failing mask %03b fofe=%v, rules added after Reset]", p, []int{a, b, c}, mask, fofe))
+										}
+									}
+									c10WithReset = false
 									for _, add := range []bool{false, true} {
 										n++
 										for _, p := range c10RuleOrder([3]int{a, b, c}, mask, fofe, add) {
